@@ -127,6 +127,9 @@ func c18Run(rc *RunCtx) *Violation {
 			} else {
 				m.state = "finished"
 			}
+			// the session is over: "the most recent message" that may be resent is a notion of
+			// one session, nothing sent in this one may travel again in a later one
+			m.last = -1
 		} else if r.Post.Enc {
 			m.state = "encrypted"
 		} else if r.Kind == "end" {
